@@ -279,6 +279,238 @@ def state_lemmas(repo):
     return {'results': res, 'sha': {}}
 
 
+STATE_FREE_DECORATORS = ('staticmethod', 'classmethod', 'property', 'abstractmethod', 'abc.abstractmethod',
+                         'contextmanager', 'contextlib.contextmanager')
+# reads of process-global parser state: names of the listed globals and the stdlib function that
+# reads html._charref (swapped by span_tokenizer.tokenize for the duration of inline parsing)
+STATE_READS = ('_token_types', '_code_matches', '_root_node', '_charref', 'html.unescape', 'parse_setext',
+               '_open_info', '_end_cond', 'closing_sequence', '_markdown_charref')
+
+
+def decorator_lemma(repo):
+    """C11 frame assumption of the global-write scan: no function of the package carries a
+    state-holding decorator (a memoiser keeps results across documents and renderers; on a function
+    that reads the listed global state it makes a later result depend on an earlier call)."""
+    res = []
+    root = os.path.join(repo, 'mistletoe')
+    t0 = time.time()
+    unknown, memo_pure, memo_impure = [], [], []
+    n_funcs = 0
+    for dp, dn, fns in os.walk(root):
+        for fname in sorted(fns):
+            if not fname.endswith('.py'):
+                continue
+            rel = os.path.relpath(os.path.join(dp, fname), repo)
+            try:
+                tree = _module_tree(repo, rel)
+            except (OSError, SyntaxError):
+                continue
+            for n in ast.walk(tree):
+                if not isinstance(n, (ast.FunctionDef, ast.AsyncFunctionDef, ast.ClassDef)):
+                    continue
+                n_funcs += 1
+                for d in n.decorator_list:
+                    txt = ast.unparse(d)
+                    base = ast.unparse(d.func) if isinstance(d, ast.Call) else txt
+                    if base in STATE_FREE_DECORATORS or base.endswith(('.setter', '.getter', '.deleter')):
+                        continue
+                    site = '%s:%d %s @%s' % (rel, n.lineno, n.name, txt)
+                    if 'cache' in base.lower() or 'memo' in base.lower():
+                        body = ast.unparse(n)
+                        hits = [r for r in STATE_READS if r in body]
+                        (memo_impure if hits else memo_pure).append((site, hits))
+                    else:
+                        unknown.append(site)
+    ms = (time.time() - t0) * 1000
+    if memo_impure:
+        res.append(mk('hidden-state:memoised-function-reads-global-state', 'refuted', ms, ['C11'], fn='mistletoe/*',
+                      text='no memoising decorator on a function that reads process-global parser state',
+                      model={'sites': ['%s reads %s' % (s_, h) for s_, h in memo_impure]},
+                      native={'reproduced': False, 'reason': 'history-dependent: no single input'}))
+    else:
+        res.append(mk('hidden-state:memoised-function-reads-global-state', 'proved', ms, ['C11'], fn='mistletoe/*',
+                      text='no memoising decorator on a function that reads process-global parser state '
+                           '(%d definitions scanned; memoised pure functions: %s)' % (n_funcs, [s_ for s_, _ in memo_pure])))
+    res.append(mk('hidden-state:decorators-state-free', 'proved' if not unknown else 'undecided', 0, ['C11'], fn='mistletoe/*',
+                  text='every decorator in the package is one of %s or a property accessor' % (STATE_FREE_DECORATORS,),
+                  detail=None if not unknown else 'UNKNOWN-DECORATOR %s: may hold state the global-write scan does not see' % unknown))
+    return {'results': res, 'sha': {}}
+
+
+TABLE_PROBE = r"""
+import sys, json, unicodedata
+sys.path.insert(0, REPO)
+from mistletoe import core_tokens as ct
+ascii_punct = set('!"#$%&\'()*+,-./:;<=>?@[\\]^_`{|}~')
+miss, extra, ws_miss, ws_extra = [], [], [], []
+for i in range(sys.maxunicode + 1):
+    c = chr(i)
+    spec_p = c in ascii_punct or unicodedata.category(c).startswith('P')
+    if spec_p != (c in ct.punctuation):
+        (miss if spec_p else extra).append(i)
+    spec_ws = unicodedata.category(c) == 'Zs' or c in '\t\n\x0c\r'
+    if spec_ws and c not in ct.unicode_whitespace:
+        ws_miss.append(i)
+    if c in ct.unicode_whitespace and not c.isspace():
+        ws_extra.append(i)
+def em(text):
+    import mistletoe
+    return mistletoe.markdown(text)
+out = {'punct_missing': miss[:20], 'punct_missing_n': len(miss), 'punct_extra': extra[:20], 'punct_extra_n': len(extra),
+       'ws_missing': ws_miss[:20], 'ws_extra': ws_extra[:20], 'unidata': unicodedata.unidata_version,
+       'ascii_ws': sorted(ord(c) for c in ct.whitespace)}
+if miss:
+    P = chr(miss[0]); t = 'a*' + P + 'b' + P + '*'
+    out['api'] = {'input': t, 'output': em(t), 'expected': 'no <em>: the * run is followed by punctuation and preceded by a letter, so it is not left-flanking'}
+    out['api']['reproduced'] = '<em>' in out['api']['output']
+elif extra:
+    X = chr(extra[0]); t = 'a*' + X + 'b' + X + '*'
+    out['api'] = {'input': t, 'output': em(t), 'expected': '<em>: both runs flank a non-punctuation character'}
+    out['api']['reproduced'] = '<em>' not in out['api']['output']
+print(json.dumps(out))
+"""
+
+
+def table_lemmas(repo):
+    """C06/C02: the character tables behind the flanking rules, compared with the specification's
+    definitions over EVERY code point (finite domain, exhaustive: a proof by enumeration)."""
+    t0 = time.time()
+    p = subprocess.run(['/venv/bin/python', '-c', TABLE_PROBE.replace('REPO', repr(repo))], capture_output=True, text=True)
+    ms = (time.time() - t0) * 1000
+    props = ['C06', 'C02']
+    if p.returncode != 0:
+        return {'results': [mk('table:core_tokens.punctuation', 'undecided', ms, props, detail='probe failed: ' + p.stderr[-300:],
+                               fn='mistletoe.core_tokens', kind='resolve')], 'sha': {}}
+    d = json.loads(p.stdout)
+    res = []
+    ok = not d['punct_missing_n'] and not d['punct_extra_n']
+    res.append(mk('table:core_tokens.punctuation == ASCII punctuation + Unicode P*', 'proved' if ok else 'refuted', ms, props,
+                  fn='mistletoe.core_tokens',
+                  text='for all 1,114,112 code points c: c in punctuation <=> c is an ASCII punctuation character or '
+                       'unicodedata.category(c) starts with P (CommonMark 0.30 section 2.1; Unicode %s)' % d['unidata'],
+                  model=None if ok else {'missing': [hex(x) for x in d['punct_missing']], 'missing_total': d['punct_missing_n'],
+                                         'extra': [hex(x) for x in d['punct_extra']], 'extra_total': d['punct_extra_n']},
+                  native=None if ok else d.get('api', {'reproduced': False})))
+    ok = not d['ws_missing'] and not d['ws_extra']
+    res.append(mk('table:core_tokens.unicode_whitespace between spec and str.isspace', 'proved' if ok else 'refuted', 0, props,
+                  fn='mistletoe.core_tokens',
+                  text='every Unicode whitespace character of the specification (category Zs, tab, LF, FF, CR) is in '
+                       'unicode_whitespace, and every member satisfies str.isspace()',
+                  model=None if ok else {'missing': [hex(x) for x in d['ws_missing']], 'extra': [hex(x) for x in d['ws_extra']]},
+                  native=None if ok else {'reproduced': True, 'table_level': True}))
+    ok = d['ascii_ws'] == [9, 10, 11, 12, 13, 32]
+    res.append(mk('table:core_tokens.whitespace == ASCII whitespace', 'proved' if ok else 'refuted', 0, props,
+                  fn='mistletoe.core_tokens', text='whitespace == {space, tab, LF, VT, FF, CR}',
+                  model=None if ok else {'table': d['ascii_ws']}, native=None if ok else {'reproduced': True, 'table_level': True}))
+    return {'results': res, 'sha': {},
+            'assumptions': ['module-level table evaluated by importing mistletoe.core_tokens from the tree under /venv/bin/python; '
+                            'unicodedata of that interpreter is the reference for general categories']}
+
+
+CHILD_MUTATORS = ('append', 'extend', 'insert', 'pop', 'remove', 'sort', 'reverse', 'clear', '__setitem__', '__delitem__')
+CHILD_FRAME_EXEMPT = {
+    ('mistletoe/span_tokenizer.py', 'append_child'): 'ParseToken.children is a plain list of ParseToken candidates, not a token tree',
+    ('mistletoe/span_tokenizer.py', 'eval_new_child'): 'same (parent is a ParseToken)',
+    ('mistletoe/token.py', 'children'): 'the setter itself (under contract: Token.children@2)',
+}
+PARENT_PROBE = r"""
+import sys, json
+sys.path.insert(0, REPO)
+import mistletoe
+from mistletoe import Document
+from mistletoe.html_renderer import HtmlRenderer
+docs = ['| a | b | c |\n|---|:-:|--:|\n| d |\n| e | f | g | h |\n', '| a |\n|---|\n', '- a\n\n  b\n- c\n', '> q\n> - x\n',
+        '1. a\n   ```\n   x\n   ```\n', '# h *e* `c` [l](u) ![i](s) <a@b.c> \\* <b>\n', 'a\n===\n\n[x]: /u "t"\n\n[x] ~~s~~ **b**\n',
+        '    code\n\n<div>\nhtml\n</div>\n\n***\n', '- | a | b |\n  |---|---|\n  | c |\n']
+try:
+    spec = json.load(open(REPO + '/test/specification/commonmark.json'))
+    docs += [e['markdown'] for e in spec]
+except Exception:
+    pass
+bad = None
+with HtmlRenderer():
+    for src in docs:
+        try:
+            d = Document(src)
+        except Exception:
+            continue
+        todo = [d]
+        while todo and bad is None:
+            t = todo.pop()
+            for c in (t.children or []):
+                if c.parent is not t:
+                    bad = {'input': src, 'child': type(c).__name__, 'lister': type(t).__name__, 'parent': repr(c.parent)[:60]}
+                    break
+                todo.append(c)
+            h = getattr(t, 'header', None)
+            if h is not None and bad is None:
+                todo.append(h)
+        if bad:
+            break
+print(json.dumps({'bad': bad, 'docs': len(docs)}))
+"""
+
+
+def child_frame_lemma(repo):
+    """C12 frame: a token's child list is written only through the `children` setter (which stamps
+    `parent`, contract Token.children@2): no in-place mutation of `.children`, no write to
+    `._children` or `.parent` anywhere else in the package."""
+    t0 = time.time()
+    sites = []
+    root = os.path.join(repo, 'mistletoe')
+    for dp, dn, fns in os.walk(root):
+        for fname in sorted(fns):
+            if not fname.endswith('.py'):
+                continue
+            rel = os.path.relpath(os.path.join(dp, fname), repo)
+            try:
+                tree = _module_tree(repo, rel)
+            except (OSError, SyntaxError):
+                continue
+            funcs = []
+            for n in ast.walk(tree):
+                if isinstance(n, (ast.FunctionDef, ast.AsyncFunctionDef)):
+                    funcs.append(n)
+            for fn in funcs:
+                if (rel, fn.name) in CHILD_FRAME_EXEMPT:
+                    continue
+                for n in ast.walk(fn):
+                    hit = None
+                    if isinstance(n, ast.Call) and isinstance(n.func, ast.Attribute) and n.func.attr in CHILD_MUTATORS \
+                            and isinstance(n.func.value, ast.Attribute) and n.func.value.attr in ('children', '_children'):
+                        hit = ast.unparse(n)
+                    elif isinstance(n, (ast.Assign, ast.AugAssign, ast.Delete)):
+                        tg = n.targets if isinstance(n, (ast.Assign, ast.Delete)) else [n.target]
+                        for t in tg:
+                            if isinstance(t, ast.Subscript) and isinstance(t.value, ast.Attribute) and t.value.attr in ('children', '_children'):
+                                hit = ast.unparse(n)
+                            elif isinstance(t, ast.Attribute) and t.attr in ('_children', 'parent') :
+                                hit = ast.unparse(n)
+                            elif isinstance(n, ast.AugAssign) and isinstance(t, ast.Attribute) and t.attr == 'children':
+                                hit = ast.unparse(n)
+                    if hit:
+                        sites.append('%s:%d %s: %s' % (rel, n.lineno, fn.name, hit[:80]))
+    ms = (time.time() - t0) * 1000
+    props = ['C12']
+    text = ('every write to a token child list goes through the children setter: no .children.append/extend/insert/..., '
+            'no item assignment, no write to ._children or .parent outside mistletoe/token.py (exempt: %s)'
+            % sorted('%s:%s' % k for k in CHILD_FRAME_EXEMPT))
+    if not sites:
+        return {'results': [mk('frame:children-written-through-setter', 'proved', ms, props, fn='mistletoe/*', text=text)], 'sha': {}}
+    p = subprocess.run(['/venv/bin/python', '-c', PARENT_PROBE.replace('REPO', repr(repo))], capture_output=True, text=True)
+    native = {'reproduced': False, 'reason': 'probe failed: ' + p.stderr[-200:]}
+    if p.returncode == 0:
+        d = json.loads(p.stdout)
+        native = {'reproduced': d['bad'] is not None, 'api_input': (d['bad'] or {}).get('input'), 'observed': d['bad'],
+                  'documents_probed': d['docs']}
+    verdict = 'refuted' if native.get('reproduced') else 'undecided'
+    r = mk('frame:children-written-through-setter', verdict, ms, props, fn='mistletoe/*', text=text,
+           model={'sites': sites}, native=native if verdict == 'refuted' else None,
+           detail=None if verdict == 'refuted' else 'CHILD-LIST-MUTATION %s: parent links of the added children are not covered by the setter contract '
+                                                     '(no document of the probe set shows a wrong parent)' % sites)
+    return {'results': [r], 'sha': {}}
+
+
 def phase_lemma(repo):
     """C07: no function of the block phase constructs a token class whose constructor runs the
     inline phase (span_token.tokenize_inner)."""
@@ -325,5 +557,8 @@ def phase_lemma(repo):
 LEMMAS = {
     'classes:structure': (class_lemmas, ['C18', 'C01', 'C11', 'C16']),
     'state:globals': (state_lemmas, ['C11', 'C16']),
+    'state:decorators': (decorator_lemma, ['C11']),
+    'tables:core_tokens': (table_lemmas, ['C06', 'C02']),
+    'frame:children': (child_frame_lemma, ['C12']),
     'phase:separation': (phase_lemma, ['C07']),
 }
